@@ -44,6 +44,8 @@ class Scn:
     def sync(self, *opts, nocopy=False, prehash=False):
         """a sync with the model tie; returns (Result, content after) or (None, None) after a violation"""
         w = self.w
+        if self.model and self.ok and c11_model.flush_drift(self):     # the previous sync passed every oracle: MODEL-DRIFT
+            return None, None
         w.sync_store()
         st0 = w.content()
         lst = w.listing()
@@ -113,13 +115,16 @@ class Scn:
         if r.rc != 0:
             return self.bad('sync_fails', 'the initial sync fails: %s' % r.err[-200:])
         td = 'd2'
+        other_name = self.cfg.get('other_name', False)
         tsub = ssub if same_path else self.rng.choice(['other/', 'zz/', '']) + ssub.rsplit('/', 1)[-1]
+        if other_name:       # same size and time-stamp, ANOTHER name: never a copy
+            tsub = self.rng.choice(['other/', '']) + 'q' + ssub.rsplit('/', 1)[-1]
         if (td, tsub) == (sd, ssub) or os.path.lexists(w.p(td, tsub)):
             tsub = 'other2/' + ssub.rsplit('/', 1)[-1]
             same_path = False
         self.plant(td, tsub, sd, ssub, decoy=decoy)
         # the rule of the property statement / DESIGN: name (or, with zero nanoseconds, path) + size + time-stamp of a fully hashed file
-        expect_copy = (tsub == ssub) or not nsec_zero
+        expect_copy = ((tsub == ssub) or not nsec_zero) and not other_name
         r = w.run('diff'); self.ncmd += 1
         cnt = counters(r)
         if r.rc != 2 or cnt['copied'] != (1 if expect_copy else 0) or cnt['added'] != (0 if expect_copy else 1):
@@ -159,9 +164,13 @@ class Scn:
             f = self.entry(st, td, tsub)
             if r.rc == 0 or f is None or any(b[0] == 'BLK' for b in f['blocks']):
                 return self.bad('decoy_accepted_2', 'the second sync exits %d and records %s' % (r.rc, f and [b[0] for b in f['blocks']]))
-            # way out 1: --force-nocopy; way out 2: the file really becomes the copy
-            if self.rng.random() < 0.5:
+            # way out 1: --force-nocopy; way out 2: the file really becomes the copy; way out 3: the file goes away
+            k = self.rng.random()
+            if k < 0.4:
                 r, st = self.sync(nocopy=True)
+            elif k < 0.6:
+                os.unlink(w.p(td, tsub)); w.log.append(['delete', td, tsub])
+                r, st = self.sync()
             else:
                 self.plant(td, tsub, sd, ssub, decoy=False)
                 r, st = self.sync()
@@ -353,7 +362,7 @@ def configs(rng, n):
                     'uuid': rng.random() < 0.5, 'where': 'tmpfs', 'seed': rng.getrandbits(32), 'i': i,
                     'variant': ['plain', 'prehash', 'nocopy'][(i // len(kinds) + i) % 3] if k == 'copy' else rng.choice(['stamp', 'content', 'dup']),
                     'nsec_zero': rng.random() < 0.4, 'same_path': rng.random() < 0.5, 'decoy': rng.random() < 0.8,
-                    'with_true': rng.random() < 0.5, 'decoy_first': rng.random() < 0.5})
+                    'with_true': rng.random() < 0.5, 'decoy_first': rng.random() < 0.5, 'other_name': k == 'copy' and rng.random() < 0.2})
     return out
 
 
@@ -371,6 +380,8 @@ def run_one(chk, binary, shim, model, cfg):
             S.rep_source()
         elif k == 'import':
             S.import_decoy(cfg['variant'], cfg['with_true'], cfg['decoy_first'])
+        if S.model and S.ok:
+            c11_model.flush_drift(S)
     finally:
         shutil.rmtree(S.w.arr.root, ignore_errors=True)
     return S
